@@ -28,9 +28,11 @@ open ChemModel.Formula ChemModel.FormulaFormat ChemModel.Gen
 /-! ### guards: the hand-modelled shapes are the ones in the source -/
 
 theorem digit_run_regex_guard : Render.digitRunRegex = "([0-9]+\\.[0-9]+|[0-9]+)" := by decide
-theorem digit_run_repl_guard : Render.digitRunRepl = "lambda m: sub(m.group(1))" := by decide
+/-- the replacement callback, in canonical form (lambda parameters alpha-renamed, printed by `ast.unparse`) -/
+theorem digit_run_repl_guard : Render.digitRunRepl = "lambda _a0: sub(_a0.group(1))" := by decide
+/-- the expression `formula_to_latex` passes as `formula` (canonical form): braces of the whole text escaped -/
 theorem latex_formula_arg_guard :
-    Render.latexFormulaArg = "re.sub(r\"([{}])\", r\"\\\\\\1\", formula) if re.search(r\"[{}]\", formula) else formula" := by decide
+    Render.latexFormulaArg = "re.sub('([{}])', '\\\\\\\\\\\\1', formula) if re.search('[{}]', formula) else formula" := by decide
 theorem other_formula_args_guard : Render.unicodeFormulaArg = "formula" ∧ Render.htmlFormulaArg = "formula" := by decide
 theorem infix_source_guard : Render.infixSource = ['.', '.'] := by decide
 theorem default_tables_guard :
